@@ -18,6 +18,8 @@ pub enum Edit {
     SetTitle(usize),
     AddField(usize),
     RemoveComments,
+    /// a zero-length comment entry (legal: the entry count and each length are explicit)
+    AddEmptyEntry,
     AddPicture(usize),
     RemovePictures,
     AddApplication(usize),
@@ -40,6 +42,7 @@ fn apply(e: &Edit, bl: &mut BlockList) -> Result<(), flac_codec::Error> {
         Edit::SetTitle(n) => bl.update::<VorbisComment>(|vc| vc.set("TITLE", "t".repeat(*n))),
         Edit::AddField(n) => bl.update::<VorbisComment>(|vc| vc.insert("EXTRA", "e".repeat(*n))),
         Edit::RemoveComments => bl.remove::<VorbisComment>(),
+        Edit::AddEmptyEntry => bl.update::<VorbisComment>(|vc| vc.fields.push(String::new())),
         Edit::AddPicture(n) => {
             bl.insert(Picture { picture_type: PictureType::FrontCover, media_type: "image/png".into(), description: "d".into(), width: 1, height: 1, color_depth: 24, colors_used: None, data: vec![7u8; *n] });
         }
@@ -316,7 +319,7 @@ pub fn step(rep: &mut Report, file: &[u8], junk: usize, edit: &Edit, history: &[
 }
 
 fn random_edit(rng: &mut Rng) -> Edit {
-    match rng.below(16) {
+    match rng.below(17) {
         0 | 1 => Edit::SetTitle(rng.usize(0, 400)),
         2 => Edit::AddField(rng.usize(0, 100)),
         3 => Edit::RemoveComments,
@@ -331,6 +334,7 @@ fn random_edit(rng: &mut Rng) -> Edit {
         12 => Edit::Noop,
         13 => Edit::FailAfterEdit,
         14 => Edit::TwoPngIcons,
+        15 => Edit::AddEmptyEntry,
         _ => Edit::SetTitle(rng.usize(0, 30)),
     }
 }
